@@ -134,8 +134,11 @@ impl TraitHandler for DebugEnumHandler {
                                 has_fields = true;
                             }
                         } else {
+                            // a nameless tuple is `(..)`, like the `debug_tuple(stringify!())` of a nameless struct
+                            let tuple_name = name_string.as_deref().unwrap_or("");
+
                             block_token_stream
-                                .extend(quote!(let mut builder = f.debug_tuple(#name_string);));
+                                .extend(quote!(let mut builder = f.debug_tuple(#tuple_name);));
 
                             for field in fields.named.iter() {
                                 let field_attribute = FieldAttributeBuilder {
@@ -254,8 +257,11 @@ impl TraitHandler for DebugEnumHandler {
                                 has_fields = true;
                             }
                         } else {
+                            // a nameless tuple is `(..)`, like the `debug_tuple(stringify!())` of a nameless struct
+                            let tuple_name = name_string.as_deref().unwrap_or("");
+
                             block_token_stream
-                                .extend(quote!(let mut builder = f.debug_tuple(#name_string);));
+                                .extend(quote!(let mut builder = f.debug_tuple(#tuple_name);));
 
                             for (index, field) in fields.unnamed.iter().enumerate() {
                                 let field_attribute = FieldAttributeBuilder {
